@@ -402,6 +402,7 @@ def source_derived(sc, group, cases_v=None):
         return res
     res["translated"] = bool(report.get("translated"))
     res["reason"] = report.get("reason")
+    res["constants"] = report.get("constants")
     if not res["translated"]:
         return res
     for name in ("Src%sProofs.v" % group, "Src%sProps.v" % group):
